@@ -47,6 +47,7 @@ def gen_orbit_spec(rng, kind, real_eop=False):
             "orient": rng.choice(["QSW", "QSW", "TNW"]),
             "rel": [rng.uniform(-3e3, 3e3), rng.uniform(-8e3, 8e3), rng.uniform(-1e3, 1e3), rng.uniform(-2, 2), rng.uniform(-4, 4), rng.uniform(-1, 1)],
             "epoch": rand_epoch(rng),
+            "scale": "TAI" if real_eop else "UTC",  # with real IERS tables the harness' own date arithmetic must not cross a leap second
             "mans": [],
         }
         t = 0.0
